@@ -1354,6 +1354,8 @@ assignexpr(struct scope *s)
 	}
 	if (!l->lvalue)
 		error(&tok.loc, "left side of assignment expression is not an lvalue");
+	if (l->type->incomplete)
+		error(&tok.loc, "left side of assignment expression has incomplete type");
 	next();
 	r = assignexpr(s);
 	if (!op)
